@@ -306,6 +306,10 @@ impl IsoDate {
         day: u8,
         overflow: ArithmeticOverflow,
     ) -> TemporalResult<Self> {
+        // A year outside of the supported range can never be regulated into a valid date.
+        if !(-271_821..=275_760).contains(&year) {
+            return Err(TemporalError::range().with_message("not a valid ISO date."));
+        }
         match overflow {
             ArithmeticOverflow::Constrain => {
                 let month = month.clamp(1, 12);
@@ -925,6 +929,10 @@ const MAX_EPOCH_DAYS: i32 = 10i32.pow(8) + 1;
 #[inline]
 /// Utility function to determine if a `DateTime`'s components create a `DateTime` within valid limits
 fn iso_dt_within_valid_limits(date: IsoDate, time: &IsoTime) -> bool {
+    // A year outside of the supported range can never be valid (and would overflow below).
+    if !(-271_821..=275_760).contains(&date.year) {
+        return false;
+    }
     if utils::epoch_days_from_gregorian_date(date.year, date.month, date.day).abs() > MAX_EPOCH_DAYS
     {
         return false;
